@@ -1,6 +1,878 @@
 package main
 
-import "verifharness/internal/vlib"
+import (
+	"context"
+	"encoding/json"
+	"errors"
+	"fmt"
+	"os"
+	"path/filepath"
+	"runtime"
+	"sort"
+	"strings"
+	"sync"
+	"sync/atomic"
+	"time"
 
-func c15Parent(cfg vlib.Cfg)          {}
-func c15Child(dir string, raw []byte) {}
+	"github.com/safing/portbase/modules"
+	"github.com/safing/portbase/utils/vhook"
+
+	"verifharness/internal/vlib"
+)
+
+// C15 — microtask concurrency limit, exactly-once execution, accounting.
+//
+// One child = one started module system; several short histories run in it, each
+// followed by a logical quiescence fence (see fence()). The oracles run in the child
+// (the event volume is large) and are reported through a vlib.Batch.
+
+// ---------------------------------------------------------------------------------
+// scenario
+
+type c15Spec struct {
+	Prop  string      `json:"prop"`
+	Case  int         `json:"case"`
+	Seed  uint64      `json:"seed"`
+	Limit int         `json:"limit"`
+	Mods  int         `json:"mods"`
+	Hists []*c15Hist  `json:"hists"`
+	Hooks []*hookRule `json:"hooks,omitempty"`
+}
+
+type c15Hist struct {
+	Class      string     `json:"class"` // m1: max delays never expire, the limit is asserted | tiny: tiny max delays, only M2-M4
+	Submitters int        `json:"submitters"`
+	Tasks      []*c15Task `json:"tasks"`
+}
+
+type c15Task struct {
+	ID         int    `json:"id"`
+	Sub        int    `json:"sub"`
+	Mod        int    `json:"mod"`
+	Variant    string `json:"v"` // run | start | sig
+	Prio       string `json:"p"` // high | med | low
+	RunUs      int    `json:"us"`
+	Panic      bool   `json:"panic,omitempty"`
+	Err        bool   `json:"err,omitempty"`
+	DoneCalls  int    `json:"done,omitempty"`
+	DoneConc   bool   `json:"done_conc,omitempty"`
+	MaxDelayMs int    `json:"maxdelay_ms"`
+	Hold       bool   `json:"hold,omitempty"` // saturation phase: stays until `limit` such tasks run at the same time
+}
+
+const c15BigDelayMs = 30000
+
+func c15Cases(cfg vlib.Cfg) []*c15Spec {
+	n := cfg.N(160, 5000)
+	var out []*c15Spec
+	for i := 0; i < n; i++ {
+		r := vlib.NewRand(cfg.Seed, "C15/case", uint64(i))
+		sp := &c15Spec{Prop: "C15", Case: i, Seed: cfg.Seed, Limit: []int{2, 3, 4, 8, 32}[i%5], Mods: r.Range(1, 3)}
+		nh := 3
+		id := 0
+		for hI := 0; hI < nh; hI++ {
+			h := &c15Hist{Class: "m1", Submitters: vlib.Pick(r, 1, 2, 4, 8, 16)}
+			if (i+hI)%4 == 3 {
+				h.Class = "tiny"
+			}
+			nt := vlib.Pick(r, 10, 30, 60, 120, 250, 400)
+			withHigh := r.Chance(1, 2)
+			panicPm := vlib.Pick(r, 0, 0, 30, 100)
+			holds := 0
+			for k := 0; k < nt; k++ {
+				t := &c15Task{ID: id, Sub: r.Intn(h.Submitters), Mod: r.Intn(sp.Mods), Variant: vlib.Pick(r, "run", "run", "start", "start", "sig"),
+					Prio: vlib.Pick(r, "med", "med", "low", "low", "high"), RunUs: vlib.Pick(r, 0, 0, 100, 100, 1000, 5000), MaxDelayMs: c15BigDelayMs}
+				id++
+				if t.Prio == "high" && !withHigh {
+					t.Prio = "med"
+				}
+				if nt >= 250 && t.RunUs == 5000 {
+					t.RunUs = 1000
+				}
+				if t.Variant != "sig" {
+					t.Panic = r.Intn(1000) < panicPm
+					t.Err = !t.Panic && r.Chance(1, 5)
+				} else {
+					t.DoneCalls = r.Range(1, 3)
+					t.DoneConc = r.Bool()
+				}
+				if h.Class == "tiny" {
+					t.MaxDelayMs = vlib.Pick(r, 0, 1, 1, 2, 5) // 0 = portbase default for Run*/Start* (1s / 3s); expires immediately for Signal*
+					if t.Variant == "sig" && t.MaxDelayMs == 0 {
+						t.MaxDelayMs = 1
+					}
+				}
+				if h.Class == "m1" && t.Prio != "high" && holds < sp.Limit && nt >= sp.Limit+2 && !t.Panic {
+					t.Hold = true
+					holds++
+				}
+				h.Tasks = append(h.Tasks, t)
+			}
+			if holds < sp.Limit {
+				for _, t := range h.Tasks {
+					t.Hold = false
+				}
+			}
+			sp.Hists = append(sp.Hists, h)
+		}
+		// amplifiers: hooks idle / PRNG delays at the grant and conclude points
+		switch i % 3 {
+		case 1:
+			sp.Hooks = append(sp.Hooks, &hookRule{Point: "modules.mt.granted", Mode: "delay", DelayUs: vlib.Pick(r, 0, 20, 100, 500), Permil: vlib.Pick(r, 100, 300, 1000)})
+		case 2:
+			sp.Hooks = append(sp.Hooks, &hookRule{Point: "modules.mt.granted", Mode: "delay", DelayUs: vlib.Pick(r, 0, 50, 200), Permil: vlib.Pick(r, 200, 500)})
+			sp.Hooks = append(sp.Hooks, &hookRule{Point: "modules.mt.conclude", Mode: "delay", DelayUs: vlib.Pick(r, 0, 50, 200, 1000), Permil: vlib.Pick(r, 100, 300, 1000)})
+		}
+		out = append(out, sp)
+	}
+	return out
+}
+
+// ---------------------------------------------------------------------------------
+// child
+
+type c15Ev struct {
+	Seq  uint64 `json:"seq"`
+	Kind string `json:"k"` // begin | end
+	Cls  string `json:"cls"`
+	ID   int    `json:"id"`
+}
+
+type probeSample struct {
+	global int32
+	perMod []int32
+}
+
+type c15H struct {
+	sp   *c15Spec
+	b    *vlib.Batch
+	mods []*modules.Module
+	prb  *modules.Module
+
+	granted   atomic.Int64 // modules.mt.granted hits (= clearances given by the regular scheduler)
+	maxdelay  atomic.Int64 // modules.mt.maxdelay hits
+	timeouts  atomic.Int64 // modules.stop.timeout hits
+	submitted atomic.Int64 // medium/low submissions made by the harness (each puts one request into a clearance queue)
+	concluded atomic.Int64 // modules.mt.conclude hits (module counter already decremented, global counter about to be)
+	expConcl  atomic.Int64 // microtasks submitted by the harness (each concludes exactly once)
+
+	probeArmed atomic.Pointer[chan probeSample]
+
+	emu sync.Mutex
+	seq uint64
+	evs []c15Ev
+
+	execs []atomic.Int32 // per task id
+}
+
+var errC15 = errors.New("harness microtask error")
+
+func (h *c15H) rec(kind, cls string, id int) {
+	h.emu.Lock()
+	h.seq++
+	h.evs = append(h.evs, c15Ev{h.seq, kind, cls, id})
+	h.emu.Unlock()
+}
+
+func c15Child(dir string, raw []byte) {
+	var sp c15Spec
+	if err := json.Unmarshal(raw, &sp); err != nil {
+		fmt.Println("bad spec:", err)
+		os.Exit(3)
+	}
+	h := &c15H{sp: &sp, b: vlib.NewBatch()}
+	total := 0
+	for _, hs := range sp.Hists {
+		total += len(hs.Tasks)
+	}
+	h.execs = make([]atomic.Int32, total)
+
+	go func() { // internal watchdog: leave a goroutine dump
+		time.Sleep(170 * time.Second)
+		buf := make([]byte, 1<<20)
+		buf = buf[:runtime.Stack(buf, true)]
+		_ = os.WriteFile(filepath.Join(dir, "hang-goroutines.txt"), buf, 0o644)
+		fmt.Fprintln(os.Stderr, "c15 child wedged")
+		os.Exit(4)
+	}()
+
+	hs := &hookSet{log: vlib.NewLog(), lat: newLatches(), rules: sp.Hooks, rnd: vlib.NewRand(sp.Seed, "c15/hookdelay", uint64(sp.Case)),
+		record: func(string, string, string) bool { return false }}
+	vhook.Set("modules.mt.granted", func(p, s string) {
+		if ch := h.probeArmed.Swap(nil); ch != nil {
+			// the probe's clearance: everything granted before it has been counted, the
+			// probe itself is neither counted nor concluded yet
+			smp := probeSample{global: modules.VerifMicroTasks()}
+			for _, m := range h.mods {
+				_, _, mt := m.VerifModuleCounts()
+				smp.perMod = append(smp.perMod, mt)
+			}
+			*ch <- smp
+		}
+		h.granted.Add(1)
+		hs.handle(p, s)
+	})
+	vhook.Set("modules.mt.conclude", func(p, s string) {
+		h.concluded.Add(1)
+		hs.handle(p, s)
+	})
+	vhook.Set("modules.mt.maxdelay", func(p, s string) { h.maxdelay.Add(1) })
+	vhook.Set("modules.stop.timeout", func(p, s string) { h.timeouts.Add(1) })
+
+	modules.VerifSetStopTimeout(8 * time.Second)
+	modules.SetStdErrReporting(false)
+	for i := 0; i < sp.Mods; i++ {
+		h.mods = append(h.mods, modules.Register(fmt.Sprintf("w%d", i), nil, nil, nil))
+	}
+	h.prb = modules.Register("probe", nil, nil, nil)
+	modules.SetMaxConcurrentMicroTasks(sp.Limit)
+	if err := modules.Start(); err != nil {
+		h.b.Inconclusive("case %d: modules.Start failed: %v", sp.Case, err)
+		h.b.Finish(dir)
+		return
+	}
+	if st := modules.GetStatus(); st == nil || st.Config.MicroTasksThreshhold != sp.Limit {
+		h.b.Violation("C15:limit-not-configured", fmt.Sprintf("SetMaxConcurrentMicroTasks(%d) but GetStatus reports a different threshold", sp.Limit), map[string]any{"spec_limit": sp.Limit})
+	}
+	ok := true
+	for i, hist := range sp.Hists {
+		if !h.runHist(i, hist) {
+			ok = false
+			break
+		}
+	}
+	if ok {
+		// M4 (second half): stopping the modules is not held up
+		done := make(chan error, 1)
+		go func() { done <- modules.Shutdown() }()
+		select {
+		case <-done:
+			if h.timeouts.Load() > 0 {
+				h.b.Violation("C15:M4:stop-held-up", "a module stop ran into the stop timeout although every microtask had finished before Shutdown was called",
+					map[string]any{"spec": h.specNoTasks(), "timeout_hook_hits": h.timeouts.Load(), "counts": h.counts()})
+			}
+			h.b.Count("shutdowns_without_timeout", 1)
+		case <-time.After(60 * time.Second):
+			h.b.Inconclusive("case %d: Shutdown did not return within 60s", sp.Case)
+		}
+		// late duplicates
+		for id := range h.execs {
+			if n := h.execs[id].Load(); n != 1 {
+				if t := h.task(id); t != nil && t.Variant != "sig" {
+					h.b.Violation("C15:M2:executed-"+cnt(n)+":"+t.Variant+"-"+t.Prio, fmt.Sprintf("microtask function %d executed %d times (checked after shutdown)", id, n), map[string]any{"task": t})
+				}
+			}
+		}
+	}
+	h.b.Finish(dir)
+}
+
+func cnt(n int32) string {
+	switch {
+	case n == 0:
+		return "never"
+	case n == 2:
+		return "twice"
+	}
+	return "many"
+}
+
+func (h *c15H) task(id int) *c15Task {
+	for _, hs := range h.sp.Hists {
+		for _, t := range hs.Tasks {
+			if t.ID == id {
+				return t
+			}
+		}
+	}
+	return nil
+}
+
+func (h *c15H) specNoTasks() map[string]any {
+	var hs []map[string]any
+	for _, x := range h.sp.Hists {
+		hs = append(hs, map[string]any{"class": x.Class, "submitters": x.Submitters, "tasks": len(x.Tasks)})
+	}
+	return map[string]any{"case": h.sp.Case, "seed": h.sp.Seed, "limit": h.sp.Limit, "mods": h.sp.Mods, "hists": hs, "hooks": h.sp.Hooks}
+}
+
+func (h *c15H) counts() map[string]any {
+	out := map[string]any{"global": modules.VerifMicroTasks()}
+	for _, m := range h.mods {
+		_, _, mt := m.VerifModuleCounts()
+		out[m.Name] = mt
+	}
+	return out
+}
+
+// runHist runs one history and its oracles. It returns false when the child cannot go on.
+func (h *c15H) runHist(hi int, hist *c15Hist) bool {
+	sp := h.sp
+	h.emu.Lock()
+	h.evs = h.evs[:0]
+	h.emu.Unlock()
+	md0 := h.maxdelay.Load()
+
+	var wg sync.WaitGroup // one per function body
+	var holdIn atomic.Int32
+	holdRelease := make(chan struct{})
+	holds := 0
+	for _, t := range hist.Tasks {
+		if t.Hold {
+			holds++
+		}
+	}
+	type retRec struct {
+		t   *c15Task
+		err error
+	}
+	var rmu sync.Mutex
+	var rets []retRec
+
+	body := func(t *c15Task) {
+		cls := "ml"
+		if t.Prio == "high" {
+			cls = "hp"
+		}
+		h.rec("begin", cls, t.ID)
+		if t.Hold {
+			if int(holdIn.Add(1)) == holds {
+				close(holdRelease)
+			}
+			select {
+			case <-holdRelease:
+				time.Sleep(500 * time.Microsecond) // stay while further submissions queue up
+			case <-time.After(3 * time.Second):
+			}
+		}
+		if t.RunUs > 0 {
+			time.Sleep(time.Duration(t.RunUs) * time.Microsecond)
+		}
+		h.rec("end", cls, t.ID)
+	}
+	fnOf := func(t *c15Task) func(context.Context) error {
+		return func(context.Context) error {
+			defer wg.Done()
+			h.execs[t.ID].Add(1)
+			body(t)
+			if t.Panic {
+				panic(fmt.Sprintf("harness panic %d", t.ID))
+			}
+			if t.Err {
+				return errC15
+			}
+			return nil
+		}
+	}
+	submit := func(t *c15Task) {
+		m := h.mods[t.Mod]
+		md := time.Duration(t.MaxDelayMs) * time.Millisecond
+		if t.Prio != "high" {
+			h.submitted.Add(1)
+		}
+		h.expConcl.Add(1)
+		switch t.Variant {
+		case "run":
+			wg.Add(1)
+			var err error
+			switch t.Prio {
+			case "high":
+				err = m.RunHighPriorityMicroTask("t", fnOf(t))
+			case "med":
+				err = m.RunMicroTask("t", md, fnOf(t))
+			default:
+				err = m.RunLowPriorityMicroTask("t", md, fnOf(t))
+			}
+			rmu.Lock()
+			rets = append(rets, retRec{t, err})
+			rmu.Unlock()
+		case "start":
+			wg.Add(1)
+			switch t.Prio {
+			case "high":
+				m.StartHighPriorityMicroTask("t", fnOf(t))
+			case "med":
+				m.StartMicroTask("t", md, fnOf(t))
+			default:
+				m.StartLowPriorityMicroTask("t", md, fnOf(t))
+			}
+		case "sig":
+			wg.Add(1)
+			var done func()
+			switch t.Prio {
+			case "high":
+				done = m.SignalHighPriorityMicroTask()
+			case "med":
+				done = m.SignalMicroTask(md)
+			default:
+				done = m.SignalLowPriorityMicroTask(md)
+			}
+			h.execs[t.ID].Add(1)
+			go func() {
+				defer wg.Done()
+				body(t)
+				n := t.DoneCalls
+				if n < 1 {
+					n = 1
+				}
+				if t.DoneConc && n > 1 {
+					var dw sync.WaitGroup
+					for i := 0; i < n; i++ {
+						dw.Add(1)
+						go func() { defer dw.Done(); done() }()
+					}
+					dw.Wait()
+				} else {
+					for i := 0; i < n; i++ {
+						done()
+					}
+				}
+			}()
+		}
+	}
+
+	var swg sync.WaitGroup
+	// saturation phase: the holding tasks are submitted from their own goroutines
+	for _, t := range hist.Tasks {
+		if t.Hold {
+			t := t
+			swg.Add(1)
+			go func() { defer swg.Done(); submit(t) }()
+		}
+	}
+	for s := 0; s < hist.Submitters; s++ {
+		s := s
+		swg.Add(1)
+		go func() {
+			defer swg.Done()
+			for _, t := range hist.Tasks {
+				if t.Sub == s && !t.Hold {
+					submit(t)
+				}
+			}
+		}()
+	}
+	fin := make(chan struct{})
+	go func() { swg.Wait(); wg.Wait(); close(fin) }()
+	select {
+	case <-fin:
+	case <-time.After(100 * time.Second):
+		missing := 0
+		for _, t := range hist.Tasks {
+			if h.execs[t.ID].Load() == 0 {
+				missing++
+			}
+		}
+		h.b.Inconclusive("case %d history %d (%s): not all microtasks finished within 100s (%d of %d never began; global count %d)", sp.Case, hi, hist.Class, missing, len(hist.Tasks), modules.VerifMicroTasks())
+		return false
+	}
+	h.b.Eval(1)
+	h.b.Count("microtasks_run", int64(len(hist.Tasks)))
+	h.b.Count("histories_"+hist.Class, 1)
+	mdHits := h.maxdelay.Load() - md0
+	h.b.Count("maxdelay_expiries_observed", mdHits)
+
+	// ---- M2: exactly once, errors handed back
+	for _, t := range hist.Tasks {
+		if n := h.execs[t.ID].Load(); n != 1 {
+			h.b.Violation("C15:M2:executed-"+cnt(n)+":"+t.Variant+"-"+t.Prio, fmt.Sprintf("microtask function executed %d times", n), map[string]any{"task": t, "spec": h.specNoTasks(), "history": hi})
+		}
+		h.b.Count("mix:"+t.Variant+"-"+t.Prio, 1)
+	}
+	for _, r := range rets {
+		t := r.t
+		switch {
+		case t.Panic:
+			if isP, me := modules.IsPanic(r.err); !isP {
+				h.b.Violation("C15:M2:panic-not-returned:"+t.Prio, fmt.Sprintf("Run* of a panicking function returned %v instead of a panic error", r.err), map[string]any{"task": t})
+			} else if me.PanicValue != fmt.Sprintf("harness panic %d", t.ID) {
+				h.b.Violation("C15:M2:wrong-panic-value:"+t.Prio, "Run* returned the panic of another function", map[string]any{"task": t, "got": fmt.Sprint(me.PanicValue)})
+			}
+			h.b.Count("run_panics_checked", 1)
+		case t.Err:
+			if r.err != errC15 { //nolint:errorlint // identity is what is demanded
+				h.b.Violation("C15:M2:error-not-returned:"+t.Prio, fmt.Sprintf("Run* returned %v instead of the function's error", r.err), map[string]any{"task": t})
+			}
+			h.b.Count("run_errors_checked", 1)
+		default:
+			if r.err != nil {
+				h.b.Violation("C15:M2:spurious-error:"+t.Prio, fmt.Sprintf("Run* returned %v although the function returned nil", r.err), map[string]any{"task": t})
+			}
+		}
+	}
+
+	// ---- M1: concurrency bound (sweep over the begin/end log)
+	h.emu.Lock()
+	evs := append([]c15Ev(nil), h.evs...)
+	h.emu.Unlock()
+	hp, ml, maxMl, maxMlNoHp := 0, 0, 0, 0
+	hasHp := false
+	viol := -1
+	for i, e := range evs {
+		d := 1
+		if e.Kind == "end" {
+			d = -1
+		}
+		if e.Cls == "hp" {
+			hp += d
+			hasHp = true
+		} else {
+			ml += d
+		}
+		if ml > maxMl {
+			maxMl = ml
+		}
+		if hp == 0 && ml > maxMlNoHp {
+			maxMlNoHp = ml
+			if ml > sp.Limit && viol < 0 {
+				viol = i
+			}
+		}
+	}
+	h.b.Max("max_concurrent_medium_low_seen", int64(maxMl))
+	if hist.Class == "m1" {
+		if mdHits > 0 {
+			h.b.Count("m1_histories_skipped_maxdelay_expired", 1)
+		} else {
+			h.b.Count("m1_histories_checked", 1)
+			if !hasHp {
+				h.b.Count("m1_histories_without_high", 1)
+				if maxMlNoHp >= sp.Limit {
+					h.b.Count("m1_histories_without_high_that_reached_limit", 1)
+				}
+			}
+			if maxMlNoHp >= sp.Limit {
+				h.b.Count("m1_histories_that_reached_limit", 1)
+			}
+			if viol >= 0 {
+				lo := viol - 40
+				if lo < 0 {
+					lo = 0
+				}
+				h.b.Violation(fmt.Sprintf("C15:M1:limit-exceeded:%s", limClass(sp.Limit)), fmt.Sprintf("%d medium/low-priority microtasks executed at the same time with limit %d, no high-priority microtask running, no max delay expired, before shutdown", maxMlNoHp, sp.Limit),
+					map[string]any{"spec": h.specNoTasks(), "history": hi, "limit": sp.Limit, "observed": maxMlNoHp, "events_before": evs[lo : viol+1]})
+			}
+		}
+	}
+	h.b.DistinctS(fmt.Sprintf("%s|lim%d|sub%d|n%d|hp%v|max%d|md%v|hooks%d|%s", hist.Class, sp.Limit, hist.Submitters, len(hist.Tasks), hasHp, maxMl, mdHits > 0, len(sp.Hooks), mixSig(hist)))
+	if hi == 0 && sp.Case < 6 {
+		h.b.Sample(map[string]any{"case": sp.Case, "history": hi, "class": hist.Class, "limit": sp.Limit, "submitters": hist.Submitters, "microtasks": len(hist.Tasks),
+			"max_concurrent_medium_low": maxMl, "high_priority_present": hasHp, "maxdelay_expiries": mdHits, "mix": mixSig(hist), "first_events": firstEvs(evs, 12)})
+	}
+
+	// ---- M3 / M4: logical quiescence fence, then the counters are sampled at the probe's grant
+	return h.fence(hi, hist)
+}
+
+func limClass(l int) string { return fmt.Sprintf("limit%d", l) }
+
+func firstEvs(e []c15Ev, n int) []c15Ev {
+	if len(e) > n {
+		return e[:n]
+	}
+	return e
+}
+
+func mixSig(h *c15Hist) string {
+	m := map[string]int{}
+	for _, t := range h.Tasks {
+		k := t.Variant + "-" + t.Prio
+		if t.Panic {
+			k += "!"
+		}
+		m[k]++
+	}
+	var ks []string
+	for k := range m {
+		ks = append(ks, k)
+	}
+	sort.Strings(ks)
+	return strings.Join(ks, ",")
+}
+
+// fence establishes logical quiescence and checks M3 and M4.
+//
+// Every medium/low submission puts exactly one request into a clearance queue (the
+// queues hold 100*GOMAXPROCS requests, a history has at most 400 outstanding) and the
+// regular scheduler answers each request exactly once, passing modules.mt.granted. When
+// the number of grants equals the number of such submissions, no request is pending.
+// Then one more medium-priority microtask (the probe) is run on its own module: inside
+// the grant hook for it - after the request was answered, before the scheduler counts
+// it - all earlier grants have been counted and the probe itself is neither counted nor
+// concluded (its function waits for the sample). The global counter must be exactly 0
+// there, and so must the per-module counters of all workload modules.
+func (h *c15H) fence(hi int, hist *c15Hist) bool {
+	sp := h.sp
+	deadline := time.Now().Add(60 * time.Second)
+	for h.granted.Load() != h.submitted.Load() || h.concluded.Load() != h.expConcl.Load() {
+		// both expectations are final here (every submission of the history was made),
+		// the observed counts only grow: an excess cannot go away
+		if c, e := h.concluded.Load(), h.expConcl.Load(); c > e {
+			h.b.Violation("C15:M3:concluded-more-than-once:"+hist.Class, fmt.Sprintf("%d microtask conclusions observed for %d microtasks: a microtask was concluded (counters decremented) more than once", c, e),
+				map[string]any{"spec": h.specNoTasks(), "history": hi, "mix": mixSig(hist), "counts": h.counts()})
+			return false
+		}
+		if g, sb := h.granted.Load(), h.submitted.Load(); g > sb {
+			h.b.Violation("C15:M3:more-grants-than-requests:"+hist.Class, fmt.Sprintf("%d clearances granted for %d requests", g, sb), map[string]any{"spec": h.specNoTasks(), "history": hi})
+			return false
+		}
+		if time.Now().After(deadline) {
+			h.b.Inconclusive("case %d history %d: after 60s of quiescence %d clearances granted for %d medium/low submissions, %d conclusions for %d microtasks", sp.Case, hi,
+				h.granted.Load(), h.submitted.Load(), h.concluded.Load(), h.expConcl.Load())
+			return false
+		}
+		time.Sleep(200 * time.Microsecond)
+	}
+	// All module counters have been decremented now (the conclude hook lies behind that
+	// decrement). The global decrement follows the hook by a few instructions, but only
+	// Run* and done() let the harness know when it has happened; the goroutine of a
+	// Start* microtask may still be between the hook and the decrement. A sample that is
+	// too HIGH is therefore re-taken with fresh probes for up to 10 s before it counts
+	// as a leak (a leaked count never goes away; a goroutine that merely has not been
+	// scheduled does). A sample that is too LOW or a non-zero module counter cannot be
+	// transient and is reported at once.
+	var smp probeSample
+	patience := time.Now().Add(10 * time.Second)
+	for try := 0; ; try++ {
+		var ok bool
+		smp, ok = h.probe(hi)
+		if !ok {
+			return false
+		}
+		if smp.global <= 0 || time.Now().After(patience) {
+			if try > 0 {
+				h.b.Count("m3_samples_retaken_after_transient_positive", int64(try))
+			}
+			break
+		}
+		time.Sleep(time.Duration(1+try) * time.Millisecond)
+	}
+	h.b.Count("quiescence_fences", 1)
+	if smp.global != 0 {
+		h.b.Violation("C15:M3:global-count-nonzero:"+sign(smp.global)+":"+hist.Class, fmt.Sprintf("global microtask count is %d after all microtasks of the history had concluded and every clearance request was answered", smp.global),
+			map[string]any{"spec": h.specNoTasks(), "history": hi, "global": smp.global, "per_module": smp.perMod, "mix": mixSig(hist)})
+		return false // the imbalance would be reported again by every later history
+	}
+	for i, c := range smp.perMod {
+		if c != 0 {
+			h.b.Violation("C15:M3:module-count-nonzero:"+sign(c)+":"+hist.Class, fmt.Sprintf("microtask count of module w%d is %d after all its microtasks had concluded", i, c),
+				map[string]any{"spec": h.specNoTasks(), "history": hi, "per_module": smp.perMod, "mix": mixSig(hist)})
+			return false
+		}
+	}
+	if st := modules.GetStatus(); st != nil {
+		for i := range h.mods {
+			if ms := st.Modules[fmt.Sprintf("w%d", i)]; ms != nil && ms.MicroTasks != 0 {
+				h.b.Violation("C15:M3:status-count-nonzero", fmt.Sprintf("GetStatus reports %d running microtasks for module w%d at quiescence", ms.MicroTasks, i), map[string]any{"spec": h.specNoTasks(), "history": hi})
+				return false
+			}
+		}
+	}
+	return true
+}
+
+// probe runs one medium-priority microtask on the probe module and returns the counters
+// sampled inside its grant hook. M4: it must be admitted by the scheduler, not by its
+// max-delay fallback.
+func (h *c15H) probe(hi int) (probeSample, bool) {
+	sp := h.sp
+	ch := make(chan probeSample, 1)
+	md0 := h.maxdelay.Load()
+	h.submitted.Add(1)
+	h.expConcl.Add(1)
+	h.probeArmed.Store(&ch)
+	var smp probeSample
+	got := false
+	var mdAtBegin int64
+	err := h.prb.RunMicroTask("probe", c15BigDelayMs*time.Millisecond, func(context.Context) error {
+		mdAtBegin = h.maxdelay.Load()
+		select {
+		case smp = <-ch:
+			got = true
+		case <-time.After(20 * time.Second):
+		}
+		return nil
+	})
+	h.b.Count("probes", 1)
+	if err != nil {
+		h.b.Violation("C15:M2:spurious-error:probe", fmt.Sprintf("probe RunMicroTask returned %v", err), nil)
+	}
+	if mdAtBegin != md0 {
+		h.b.Violation("C15:M4:not-admitted-immediately", "after all microtasks had finished a fresh medium-priority microtask was only started by its max-delay fallback, not admitted by the scheduler",
+			map[string]any{"spec": h.specNoTasks(), "history": hi, "counts": h.counts()})
+		h.probeArmed.Store(nil)
+		return smp, false
+	}
+	if !got {
+		h.b.Inconclusive("case %d history %d: probe ran but the grant hook never sampled the counters", sp.Case, hi)
+		h.probeArmed.Store(nil)
+		return smp, false
+	}
+	return smp, true
+}
+
+func sign(n int32) string {
+	if n < 0 {
+		return "negative"
+	}
+	return "positive"
+}
+
+// ---------------------------------------------------------------------------------
+// parent
+
+var c15RaceScope = []string{"microTaskScheduler", "microTaskShutdownScheduler", "concludeMicroTask", "signalMicroTask", "runMicroTask",
+	"getMediumPriorityClearance", "getLowPriorityClearance", "MicroTask"}
+
+const c15Rule = "case = one started module system (1-3 workload modules + a probe module), limit in {2,3,4,8,32}, three histories of 10-400 microtasks each: " +
+	"Run*/Start*/Signal* x high/medium/low, run times 0-5 ms, 0-10% panicking, 20% returning an error, 1-16 submitting goroutines, done() called 1-3 times (also concurrently); " +
+	"class m1: max delays of 30 s (never expire), a saturation phase in which `limit` functions stay until all of them run; class tiny: max delays of 0-5 ms (only M2-M4 asserted); " +
+	"hooks idle or PRNG delays at modules.mt.granted / modules.mt.conclude. distinct = class x limit x submitters x size x priority/variant mix x observed maximum concurrency; " +
+	"non-trivial = every history (all run >= 10 microtasks through the scheduler and end with the quiescence fence)"
+
+func c15Parent(cfg vlib.Cfg) {
+	rep := vlib.NewReport(cfg)
+	rep.Rule(c15Rule)
+	var cases []*c15Spec
+	repeat := 1
+	if cfg.Replay != "" {
+		sp, err := c15ReplaySpec(cfg)
+		if err != nil {
+			fmt.Println("h_work: cannot replay:", err)
+			rep.Note("replay file not usable: %v", err)
+			_ = rep.Finish()
+			return
+		}
+		cases, repeat = []*c15Spec{sp}, 10
+	} else {
+		cases = c15Cases(cfg)
+	}
+	type job struct {
+		sp      *c15Spec
+		race    bool
+		attempt int
+	}
+	var jobs []job
+	for _, sp := range cases {
+		for k := 0; k < repeat; k++ {
+			jobs = append(jobs, job{sp, cfg.BinRace != "" && (sp.Case+k)%3 == 2, 0})
+		}
+	}
+	for round := 0; round < 3 && len(jobs) > 0; round++ {
+		var specs []vlib.ChildSpec
+		for i, j := range jobs {
+			bin := cfg.BinPlain
+			if j.race {
+				bin = cfg.BinRace
+			}
+			specs = append(specs, vlib.ChildSpec{Name: fmt.Sprintf("c15-r%d-%04d-%d", round, j.sp.Case, i), Bin: bin, Spec: j.sp, Timeout: 200 * time.Second, Race: j.race})
+		}
+		var retry []job
+		vlib.RunChildren(cfg, specs, func(i int, c *vlib.ChildResult) {
+			j := jobs[i]
+			for _, rr := range c.Races {
+				switch {
+				case rr.HarnessOnly():
+					rep.FloorMissed("race report with harness-only frames (the monitor itself is racy): %s", firstLines(rr.Text, 12))
+				case c15RaceInScope(&rr):
+					rep.Violation("C15:race:"+rr.Signature(), "data race on the microtask accounting state", map[string]any{"case": j.sp.Case, "report": rr.Text})
+				default:
+					rep.Seen("race_diagnostics", rr.Signature())
+				}
+			}
+			if !c.Done || len(c.Out) == 0 {
+				tail := c.StderrTail(6000)
+				if crashInPortbase(tail) {
+					rep.Violation("C15:crash:"+fatalSite(tail), fmt.Sprintf("child of case %d died inside portbase/modules (exit=%d signal=%q)", j.sp.Case, c.Exit, c.Signal),
+						map[string]any{"case_spec_summary": map[string]any{"case": j.sp.Case, "limit": j.sp.Limit}, "stderr_tail": tail})
+					return
+				}
+				if j.attempt < 2 {
+					j.attempt++
+					retry = append(retry, j)
+					return
+				}
+				rep.Inconclusive("case %d: child did not complete (exit=%d signal=%q timeout=%v); stderr: %s", j.sp.Case, c.Exit, c.Signal, c.TimedOut, lastLines(tail, 6))
+				return
+			}
+			if j.race {
+				rep.Count("children_race_build", 1)
+				rep.MergeChild(c)
+			} else {
+				rep.Count("children_plain_build", 1)
+				rep.MergeChild(c)
+			}
+			rep.Seen("limits_driven", fmt.Sprint(j.sp.Limit))
+		})
+		jobs = retry
+	}
+	if cfg.Replay == "" {
+		m1 := rep.Counter("m1_histories_checked")
+		m1nh := rep.Counter("m1_histories_without_high")
+		rep.Floor(rep.Counter("microtasks_run") >= int64(cfg.N(30000, 1000000)), "only %d microtasks run", rep.Counter("microtasks_run"))
+		rep.Floor(m1 >= int64(cfg.N(200, 6000)), "only %d m1 histories checked", m1)
+		rep.Floor(m1nh > 0 && rep.Counter("m1_histories_without_high_that_reached_limit")*2 >= m1nh,
+			"the concurrency limit was reached in only %d of %d m1 histories without high-priority microtasks", rep.Counter("m1_histories_without_high_that_reached_limit"), m1nh)
+		rep.Floor(rep.Counter("quiescence_fences") >= int64(cfg.N(300, 10000)), "only %d quiescence fences", rep.Counter("quiescence_fences"))
+		rep.Floor(rep.Counter("histories_tiny") > 0 && rep.Counter("maxdelay_expiries_observed") > 0, "no max-delay expiry observed in the tiny class")
+		rep.Floor(rep.Counter("run_errors_checked") > 0 && rep.Counter("run_panics_checked") > 0, "no error/panic hand-back checked")
+	}
+	rep.Assume("M1 is asserted at instants at which no harness high-priority function is between its begin and end, in histories without any modules.mt.maxdelay event, all before Shutdown")
+	rep.Assume("the gauge of a function lies inside the interval during which portbase counts the microtask, except for the grant window (request answered, not yet counted), during which the single scheduler goroutine cannot admit another one")
+	rep.Assume("quiescence is logical: number of modules.mt.granted hits == number of medium/low submissions, then the counters are sampled inside the grant hook of a probe microtask; at most 400 requests are outstanding, far below the clearance queue capacity (100*GOMAXPROCS)")
+	if err := rep.Finish(); err != nil {
+		fmt.Println("h_work: cannot write result:", err)
+		os.Exit(2)
+	}
+}
+
+func c15RaceInScope(rr *vlib.RaceReport) bool {
+	if !rr.InScope(c15RaceScope...) {
+		return false
+	}
+	for i := 0; i < 2; i++ {
+		// unlocked read of Module.Ctx against start(): see c05RaceInScope
+		if strings.HasSuffix(rr.TopFrame(i, "safing/portbase"), "modules.(*Module).start") {
+			return false
+		}
+	}
+	return true
+}
+
+func c15ReplaySpec(cfg vlib.Cfg) (*c15Spec, error) {
+	b, err := os.ReadFile(cfg.Replay)
+	if err != nil {
+		return nil, err
+	}
+	var doc struct {
+		Seed   uint64 `json:"seed"`
+		Detail struct {
+			Spec struct {
+				Case int    `json:"case"`
+				Seed uint64 `json:"seed"`
+			} `json:"spec"`
+		} `json:"detail"`
+	}
+	if err := json.Unmarshal(b, &doc); err != nil {
+		return nil, err
+	}
+	// a C15 case is regenerated from (seed, case number); the witness stores both
+	c := cfg
+	c.Seed = doc.Detail.Spec.Seed
+	if c.Seed == 0 {
+		c.Seed = doc.Seed
+	}
+	for _, sp := range c15Cases(c) {
+		if sp.Case == doc.Detail.Spec.Case {
+			return sp, nil
+		}
+	}
+	// thorough-tier case numbers
+	c.Tier = "thorough"
+	for _, sp := range c15Cases(c) {
+		if sp.Case == doc.Detail.Spec.Case {
+			return sp, nil
+		}
+	}
+	return nil, fmt.Errorf("case %d not found for seed %d", doc.Detail.Spec.Case, c.Seed)
+}
